@@ -341,7 +341,8 @@ def finish(ctx, level, coverage, assumptions):
         "wall_s": round(time.time() - ctx.t0, 2),
         "violations": violations,
     }
-    if not ctx.replay and not os.environ.get("VERIF_REPO"):   # trial runs against a scratch tree leave the evidence alone
+    import re as _re
+    if not ctx.replay and not os.environ.get("VERIF_REPO") and _re.fullmatch(r"C\d\d", ctx.pid):   # trial runs against a scratch tree (and stand-alone parts) leave the evidence alone
         os.makedirs(os.path.join(VERIF, "evidence"), exist_ok=True)
         json.dump(ev, open(os.path.join(VERIF, "evidence", ctx.pid + ".json"), "w"), indent=1, sort_keys=True)
     for n in ctx.notes:
